@@ -54,7 +54,20 @@ package op
 // rings of a polygon are reversed in place or left alone; nothing else is written.
 //@ func FixOrientation
 //@   prop C16
-//@   trusted reversePolygon swaps elements inside one ring of g; orientation/polyInPoly (float geometry deciding WHICH rings are reversed) are not verified
+//@   trusted the only writer it calls, reversePolygon, is verified below (one ring of g reversed in place, nothing else written); orientation/polyInPoly (float geometry deciding WHICH rings are reversed; orientation indexes r[0] of every ring) are not verified, so the frame of the whole function stays assumed
 //@   opt writes=geom.Point,alloc
 //@   requires [polygon] typeof(g) == geom.Polygon
 //@   modifies each(g.(geom.Polygon))
+
+// reversePolygon (the only writer FixOrientation calls): the ring is reversed in place, vertex for
+// vertex, bit-identically; nothing else is written.
+//@ func reversePolygon
+//@   prop C16
+//@   mode fp
+//@   ensures [reversed] len(result) == len(s) && (forall k int :: 0 <= k && k < len(s) ==> biteq(s[k].X, old(s[len(s)-1-k].X)) && biteq(s[k].Y, old(s[len(s)-1-k].Y)))
+//@   modifies s
+//@   loop 1 `for i, j := 0, len(s)-1; i < j; i, j = i+1, j-1`
+//@     invariant [ends] 0 <= i && j == len(s) - 1 - i && i <= j + 1
+//@     invariant [swapped] forall k int :: 0 <= k && k < i ==> biteq(s[k].X, old(s[len(s)-1-k].X)) && biteq(s[k].Y, old(s[len(s)-1-k].Y)) && biteq(s[len(s)-1-k].X, old(s[k].X)) && biteq(s[len(s)-1-k].Y, old(s[k].Y))
+//@     invariant [middle] forall k int :: i <= k && k <= j ==> biteq(s[k].X, old(s[k].X)) && biteq(s[k].Y, old(s[k].Y))
+//@     decreases j - i
